@@ -155,3 +155,59 @@ func init() {
 		},
 	})
 }
+
+func init() {
+	register(&propDef{
+		ID: "C10",
+		Explain: "Rules on the file plugin: which loaders feed the table each handler reads (FILE.PER-PROTOCOL — the pinned tree shares one global table between both protocols: recorded known finding); every store to the served table is a whole-map swap under the write lock on the loader's err == nil edge, never an in-place edit (FILE.SWAP); both loaders return a nil map with every error and the map only after all lines (FILE.ALL-OR-NOTHING); per loop iteration a record is stored exactly for non-empty, non-comment lines with two fields, a valid MAC and an address of the loader's family, keyed by HardwareAddr.String() of the parsed MAC, and any other non-skipped line is an error (FILE.LINE-GRAMMAR, both sibling loaders); handlers look up under the same canonical key of chaddr / ExtractMAC(received packet), listed clients get exactly the listed address (v4: yiaddr + stop; v6: one IA_NA with the request's IAID, only if requested), others get nothing (FILE.LOOKUP); the watcher goroutine reloads on every event and never leaves its loop (FILE.WATCH); lock discipline of the table (GUARDED-BY).",
+		Trusted: trustedBase,
+		Assume:  []string{"net.ParseMAC / net.ParseIP grammars (stdlib)", "fsnotify event delivery ('eventually')", "last occurrence wins = Go map overwrite semantics"},
+		Run: func(c *Ctx) {
+			ruleFilePlugin(c, "C10.")
+			ruleGuardedBy(c, "C10.")
+			c.R.Floor("C10.FILE.PER-PROTOCOL", 1)
+			c.R.Floor("C10.FILE.SWAP", 1)
+			c.R.Floor("C10.FILE.ALL-OR-NOTHING", 2)
+			c.R.Floor("C10.FILE.LINE-GRAMMAR", 2)
+			c.R.Floor("C10.FILE.LOOKUP", 2)
+			c.R.Floor("C10.FILE.WATCH", 1)
+		},
+	})
+}
+
+func init() {
+	register(&propDef{
+		ID: "C05",
+		Explain: "IPv4: the index↔address maps are linear in (ip, start, end) and guarded only by comparisons; the rule extracts result terms and the exact branch facts of every abstract exit: toOffset succeeds iff ¬(ip < start) ∧ ¬(end < ip) (both inclusive, nothing else) and returns ip − start; toIP returns start + o exactly under o ≤ end − start, so toIP∘toOffset is the identity; the constructor enforces start ≤ end and sizes the bitmap end − start + 1 (LINMAP). IPv6: the mask length is the block size unless the hint is a longer 128-bit mask (SIZE); the constructor sizes the bitmap 2^(size − pool length) under 0 ≤ order < word size (CAP, re-run under GOARCH=386 in the thorough tier). Both: ErrNoAddrAvail is returned exactly on the failed edge of NextClear(0) with no bitmap mutation; every success return converts exactly the bit it set (FULL-IFF-FAIL, SAME-INDEX).",
+		Trusted: trustedBase,
+		Assume:  []string{"IPv6 alignment / in-pool of toPrefix(i) needs AddPrefixes' exactness (C20, not decided numerically)", "bitset.NextClear's contract (< length)", "ranges are not 0.0.0.0–255.255.255.255 (end − start + 1 wraps only there)"},
+		Run: func(c *Ctx) {
+			ruleLinMap(c, "C05.")
+			ruleSizeCap(c, "C05.")
+			ruleAlloc(c, "C05.", map[string]bool{"FULL": true, "SAMEINDEX": true})
+			c.R.Floor("C05.LINMAP", 3)
+			c.R.Floor("C05.SIZE", 1)
+			c.R.Floor("C05.CAP", 1)
+			c.R.Floor("C05.FULL-IFF-FAIL", 4)
+			c.R.Floor("C05.ALLOC.SAME-INDEX", 2)
+		},
+	})
+	register(&propDef{
+		ID: "C20",
+		Explain: "Overflow *discipline* of allocators.Offset / AddPrefixes, not their numbers: every math/bits Add64/Sub64/Mul64 has its carry/borrow/high result fed to the next limb or compared with zero; every left shift of a variable is justified in its abstract state by a guard x < 2^k (or x >> k == 0) whose exponent and the shift count sum to ≤ 64 as linear terms over the prefix length; every shift of a constant has its count bounded below 64; raw +,−,× of two variable limbs are violations unless a table exception cites the ordering/guard fact that excludes wrap-around (3 exceptions in Offset, each tied to the fact it cites) (ARITH.GUARDED); every ErrOverflow return carries the zero value (ARITH.ERR-ZERO); the only callers are the bitmap allocator's toIndex/toPrefix with the pool base (ARITH.CALLERS); slices are length-checked (C01.BOUNDS). Numerical correctness, the inverse law and argument-order symmetry are NOT decided — they need a big-integer reference, which is a different technique family.",
+		Trusted: trustedBase,
+		Assume:  []string{"prefix length ≤ 128 (the functions' stated domain; callers pass the allocator's page size)", "numerical correctness of the 128-bit results is not decided"},
+		Run: func(c *Ctx) {
+			ruleArith(c, "C20.")
+			fn1 := c.P.Func("plugins/allocators", "", "Offset")
+			fn2 := c.P.Func("plugins/allocators", "", "AddPrefixes")
+			if fn1 != nil && fn2 != nil {
+				runSafety(c, "C20.", []*ssa.Function{fn1, fn2}, nil, "BOUNDS")
+			}
+			c.R.Floor("C20.ARITH.GUARDED", 9)
+			c.R.Floor("C20.ARITH.ERR-ZERO", 2)
+			c.R.Floor("C20.ARITH.CALLERS", 2)
+			c.R.Floor("C20.BOUNDS", 8)
+		},
+	})
+}
